@@ -202,7 +202,7 @@ def main():
     programs = checked = muts = sols = 0
     for it, (st, val) in zip(items, results):
         if st != "ok":
-            run.inconc(f"{it['path']}: job {st} {str(val)[:300] if val else ''}")
+            run.job_failed(it['path'], st, val)
             continue
         run.add_stats(val["stats"])
         for r in val["refusals"]:
